@@ -197,6 +197,28 @@ theorem source_new_wrapper_faults (mf : Option Exc) (sk : Skel) (ps : List Param
         obtain ⟨st4, b4⟩ := r4
         cases b4 <;> cases rs <;> cases mf <;> wsimp [hd, h1', h4]
       | ANN => cases mf <;> wsimp [hd, h1']
+/-- `_get_problem_arg` as written today: its `for keep_name … else` loop, translated from the current source on this run
+    and run over ANY parameter list in any thread state, is `problemArg` of the model — each parameter is re-checked on
+    its own in the same context, the first whose check does not succeed (False, AnnotationError or any other
+    `Exception`) is blamed by name, a `BaseException` escapes, and when every parameter passes alone the blame is empty -/
+theorem source_problem_arg (sk : Skel) : ∀ (ps : List Param) (st : TState),
+    runBlame sk Generated.problemArgBody Generated.problemArgElse ps st = some (problemArg sk ps st)
+  | [], st => by
+    simp [runBlame, problemArg, Generated.problemArgElse, BStmt.run]
+  | p :: ps, st => by
+    rw [runBlame, problemArg]
+    unfold Generated.problemArgBody
+    generalize h : onTop st (checkL sk p.ty p.val) = r
+    obtain ⟨st1, v⟩ := r
+    cases v with
+    | T =>
+      first
+      | (simp [BStmt.run, h, WCls.covers]; exact source_problem_arg sk ps st1)
+      | simp [BStmt.run, h, WCls.covers, source_problem_arg sk ps]
+    | F => simp [BStmt.run, h, WCls.covers]
+    | ANN => simp [BStmt.run, h, WCls.covers]
+    | EXC e => cases e <;> simp [BStmt.run, h, WCls.covers]
+
 /-- the model's own step for a program term is therefore what the source does -/
 theorem source_runProg_call (sk : Skel) (ps : List Param) (ret : Option (LType × Obj)) (bindOk noTc rs nw : Bool)
     (body : List Prog) (e : Exit) (st : TState) :
